@@ -247,6 +247,27 @@ func Run(r *common.Run) error {
 	r.Mark("case open")
 	runSend(r, false, true, 0, nil, "send-corpus")
 	runSend(r, false, false, 16, nil, "send-corpus")
+	r.Mark("case open-fail")
+	runOpenFail(r, "send")
+	runOpenFail(r, "silent")
+	// the tail of a write that is not a multiple of three: every length, with / without Flush,
+	// closed by either side, both carriers, opened by either side
+	nt := 0
+	for _, opener := range []bool{false, true} {
+		for _, carrier := range []string{"iq", "message"} {
+			for n := 0; n <= 7; n++ {
+				for _, flush := range []bool{false, true} {
+					for _, peerCloses := range []bool{false, true} {
+						r.Mark("case tail %d", nt)
+						nt++
+						runTail(r, opener, carrier, n, flush, peerCloses)
+					}
+				}
+			}
+		}
+	}
+	r.Mark("case wrap-quick")
+	runWrapQuick(r)
 	for i, c := range []struct {
 		acked bool
 		bs    uint16
